@@ -271,15 +271,6 @@ def run_history(kind, nholes, d0, p0, ops, obs_at=None):
     return trace, fails
 
 
-def ring_to_polygon_props_alias(case):
-    """signature: every failing clause is the properties-dict alias of GeoRing.to_polygon()'s result"""
-    return case['kind'] in ('KRing', 'KWedge') and bool(case.get('fails')) and \
-        all(f[1] == 'returned_object_aliases_receiver' and case['ops'][f[0]][0] == 'ToPolygon' for f in case['fails'])
-
-
-PREDICATES = {'ring_to_polygon_props_alias': ring_to_polygon_props_alias}
-
-
 def shrink(kind, nholes, d0, p0, ops):
     """greedy removal of operations while the property still fails on the implementation"""
     cur = list(ops)
@@ -342,11 +333,6 @@ def main():
         except Exception as ex:   # noqa: an operation the property promises to work raised something unexpected
             ck.violation({'kind': 'implementation-raises', 'case': m, 'exception': repr(ex)})
             continue
-        if fails:
-            f = ck.finding_for({'kind': kind, 'ops': ops, 'fails': fails}, PREDICATES)
-            if f:
-                ck.known(f)
-                fails = []
         if fails and nfail < 5:
             small = shrink(kind, nh, d0, p0, ops)
             m['shrunk_ops'] = small
